@@ -389,7 +389,7 @@ def required_unreached(cfg, kit):
 POOL_KIT = Kit(make_driver, judge, observation, SRC)
 
 
-def run_pool_check(report, prop, plan, kit=None, what="own_proc_pools.py"):
+def run_pool_check(report, prop, plan, kit=None, what="own_proc_pools.py", grid=None):
     kit = kit or POOL_KIT
     """plan: list of (Config, preemption bound or None, env bound, max_execs or None)"""
     report.rule("one evaluation = one complete schedule (maximal execution) of a driver over the real "
@@ -399,7 +399,23 @@ def run_pool_check(report, prop, plan, kit=None, what="own_proc_pools.py"):
     report.assume("virtual threading/multiprocessing layer conforms to the real one (conformance/primitives.py)")
     report.assume("multiprocessing.Queue / manager queue hand-off is modelled as synchronous; pickling is not modelled")
     report.assume("fork-like process start (deep copy of the process object, shared virtual primitives by reference)")
-    for cfg, pbound, ebound, max_execs in plan:
+    for entry in plan:
+        _run_entry(report, prop, entry, kit, True)
+    if grid:
+        # many small configurations: one sequential (fully deterministic) explorer per configuration, fanned out
+        from mc.report import Report
+
+        def work(entry):
+            sub = Report(prop, collect_only=True)
+            _run_entry(sub, prop, entry, kit, False)
+            return sub.dump()
+        for d in pmap(work, grid):
+            report.merge(d)
+
+
+def _run_entry(report, prop, entry, kit, parallel):
+    cfg, pbound, ebound, max_execs = entry
+    if True:
         vmp.COVERED.clear()
         bounds = [0] + ([pbound] if pbound != 0 else []) if pbound is not None else [None]
         if pbound is not None and pbound >= 2:
@@ -409,7 +425,7 @@ def run_pool_check(report, prop, plan, kit=None, what="own_proc_pools.py"):
         last = None
         t0 = time.time()
         for b in bounds:
-            ex, racy, wall = explore_config(cfg, b, ebound, max_execs=max_execs, kit=kit)
+            ex, racy, wall = explore_config(cfg, b, ebound, max_execs=max_execs, kit=kit, parallel=parallel)
             last = ex
             for key, (item, rep, cnt) in ex.violations.items():
                 p, sig, what, extra = item
